@@ -9,7 +9,7 @@ from tfv.model import print_document
 from tfv.impl import clean_registry
 from tfv.mutate import mutants
 from tfv.props import c01
-from tfv.props.c14 import SubHarness
+from tfv.props.c14 import SubHarness, root_key_repeated
 
 ID = "C06"
 LEVEL = "exploration"
@@ -132,6 +132,8 @@ def case(c, stats):
             f.add("after_an_invalid_twin")
         if mixed and any(d["k"] == "op" and d["type"] == "subscription" for d in spec["doc"]["defs"]):
             f.add("subscription_in_same_document")
+            if root_key_repeated(spec["doc"]):
+                f.add("subscription_root_key_repeated")
         nontrivial = bool(f & {"shared_fragment", "fragment_in_several_operations", "directives_in_3_location_kinds"})
         sample = {"query": print_document(spec["doc"]).text, "features": sorted(f)}
         stats.case(spec, nontrivial, sorted(f) + [k for k in ("var_nested", "var_nn_via_default", "merged_key", "alias_to_avoid_conflict") if gstats.get(k)], sample)
